@@ -58,9 +58,11 @@ def c01_plan(tier):
 
 def c06_plan(tier):
     if tier == "quick":
-        return plan(["B1@4/3", "B1,snappy=1,bloom=1@0/2", "B1@2^" + L_SNAP, "B1@2^S " + L_DEEP, NOCASE + "@0/2"])
+        return plan(["B1@4/3", "B1,snappy=1,bloom=1@0/2", "B1@2^" + L_SNAP, "B1@2^S " + L_DEEP, NOCASE + "@0/2",
+                     "B1@2^S P0.1 F S P0.1 F", "B1@2^S P0.1 P1.1 S D0 P1.2 F"])
     return plan(["B1@5/4", "B1,snappy=1,bloom=1@4/3", "B1,cmp=1@3/3", "B2@3/2", NOCASE + "@3/3", "B1@3^" + L_SNAP, "B1@3^S " + L_DEEP,
-                 "B1@3^P0.1 S D0 S P0.2 F", "B1,cache=1,mmap=0@3^" + L_SNAP])
+                 "B1@3^P0.1 S D0 S P0.2 F", "B1,cache=1,mmap=0@3^" + L_SNAP,
+                 "B1@3^S P0.1 F S P0.1 F", "B1@3^S P0.1 P1.1 S D0 P1.2 F"])
 
 
 def c07_plan(tier):
@@ -215,7 +217,7 @@ E1_ASSUME = [
     "states = executions (each a distinct complete schedule of the implementation), transitions = scheduling points executed",
 ]
 
-MC_ALL = "D1,D1f,D2,D2b,D3,D4,D4b,D5,D6,D7,D8,D9,D10,D11,D14,D15"
+MC_ALL = "D1,D1f,D2,D2b,D3,D4,D4b,D5,D6,D7,D8,D9,D10,D11,D14,D15,D16"
 
 PROPS["C08"] = dict(
     level="model_checking",
@@ -223,8 +225,8 @@ PROPS["C08"] = dict(
     rule="for each scenario every schedule within the deviation bound is executed on a fresh copy of the scenario's initial image; oracle: a total order of the <=12 recorded operations exists that respects real time and explains every get, snapshot read, iterator scan and the final state; distinct = distinct result vectors",
     distinct_key="outcomes", assumptions=E1_ASSUME,
     stages=[dict(name="mc", driver="mc", flavour="asan", args=["--prop", "C08"],
-                 quick=["--scenarios", "D1,D1f,D2,D2b,D3,D4,D5,D6,D10,D11", "--bound", "2"],
-                 thorough=["--scenarios", "D1,D1f,D2,D2b,D4,D5,D6,D10,D11,D3", "--bound", "3"]),
+                 quick=["--scenarios", "D1,D1f,D2,D2b,D3,D4,D4b,D16,D5,D6,D10,D11", "--bound", "2"],
+                 thorough=["--scenarios", "D1,D1f,D2,D2b,D4,D4b,D4c,D16,D5,D6,D10,D11,D3", "--bound", "3"]),
             dict(name="mc-io", driver="mc", flavour="asan", args=["--prop", "C08", "--io", "1"], tiers=["thorough"],
                  thorough=["--scenarios", "D1,D1f,D2,D4,D11", "--bound", "2"])],
 )
